@@ -1,5 +1,5 @@
 #!/usr/bin/env python3
-"""mutate.py [--workers N] [--limit M] [--seed S] [--files a.rs,b.rs]
+"""mutate.py [--workers N] [--limit M] [--offset K] [--seed S] [--files a.rs,b.rs]
 
 Mechanical mutation sweep of Lipen/bdd-rs against the correspondence suites (a supplement to the seeded
 changes written by sub-agents: breadth instead of ingenuity).  Works on scratch copies under /tmp/mut
@@ -148,7 +148,8 @@ def main():
     files = a[a.index("--files") + 1].split(",") if "--files" in a else FILES
     cands = candidates(files)
     random.Random(seed).shuffle(cands)
-    cands = cands[:limit]
+    offset = int(a[a.index("--offset") + 1]) if "--offset" in a else 0
+    cands = cands[offset:offset + limit]
     print("mutants:", len(cands), flush=True)
     os.makedirs(ROOT, exist_ok=True)
     dirs = [setup_worker(w) for w in range(workers)]
@@ -173,7 +174,7 @@ def main():
                survivors=[r for r in results if r["status"] == "survivor"],
                killed_by_tests_only=[r for r in results if r["status"] == "killed-by-tests-only"],
                all=results)
-    tag = hashlib.sha1(("%d-%d-%s" % (seed, limit, ",".join(files))).encode()).hexdigest()[:6]
+    tag = hashlib.sha1(("%d-%d-%d-%s" % (seed, offset, limit, ",".join(files))).encode()).hexdigest()[:6]
     json.dump(rep, open(os.path.join(V, "mutation_report_%s.json" % tag), "w"), indent=1)
     print("summary:", summary)
     shutil.rmtree(ROOT, ignore_errors=True)
